@@ -196,6 +196,11 @@ fn gen_svcb(m: &Menus, s: &mut Sink, https: bool) {
             if p.value.len() > 65535 {
                 r.unrepresentable = Some(format!("{} longer than 65535 octets", p.tag));
             }
+            if let SvcKind::Alpn(ids) = &p.kind {
+                if ids.iter().any(|i| i.len() > 255) {
+                    r.unrepresentable = Some("alpn-id longer than 255 octets".into());
+                }
+            }
         }
         let mut keys: Vec<u16> = set.iter().map(|p| p.key).collect();
         keys.sort();
